@@ -37,6 +37,7 @@ func histFamiliesW(c *CheckRun, wantFan bool, light bool) []histB {
 			out = append(out, every(fShort(kindAlphaB, 3, []int{0, 1, 2}, false), 6, c.Seed)...)
 			out = append(out, every(fShort(kindAlphaS, 2, []int{0, 1, 2}, false), 3, c.Seed)...)
 			out = append(out, every(fLong(kindAlphaB, []int{mp, mp + 1}, false), 3, c.Seed)...)
+			out = append(out, every(fLongDeep(kindAlphaB, []int{mp + 1}, false), 2, c.Seed)...)
 			out = append(out, fNum(kindU8, 3)...)
 			out = append(out, fNum(kindI64, 2)...)
 			out = append(out, fNum(kindF32, 2)...)
@@ -45,12 +46,14 @@ func histFamiliesW(c *CheckRun, wantFan bool, light bool) []histB {
 			out = append(out, fShort(kindAlphaB, 3, []int{0, 1, 2}, false)...)
 			out = append(out, fShort(kindAlphaS, 2, []int{0, 1, 2}, false)...)
 			out = append(out, fLong(kindAlphaB, []int{mp, mp + 1}, false)...)
+			out = append(out, fLongDeep(kindAlphaB, []int{mp + 1}, false)...)
 			for _, k := range numericQuick {
 				out = append(out, fNum(k, 3)...)
 			}
 		}
 		if wantFan {
 			out = append(out, fFan(c, kindAlphaB, 1, 1, false)...)
+			out = append(out, fFanStem(c, kindAlphaB, false)...)
 		}
 		return out
 	}
@@ -65,6 +68,7 @@ func histFamiliesW(c *CheckRun, wantFan bool, light bool) []histB {
 	out = append(out, every(fShort(kindAlphaS, 3, []int{0, 1, 2}, false), thin, c.Seed)...)
 	out = append(out, every(fLong(kindAlphaB, []int{mp - 1, mp, mp + 1, mp + 2, 2 * mp}, !light), thin, c.Seed)...)
 	out = append(out, every(fLong(kindAlphaS, []int{mp, mp + 1}, false), thin, c.Seed)...)
+	out = append(out, every(fLongDeep(kindAlphaB, []int{mp, mp + 1, mp + 2}, true), thin, c.Seed)...)
 	for _, k := range numericAll {
 		if light {
 			out = append(out, fNum(k, 2)...)
@@ -83,6 +87,7 @@ func histFamiliesW(c *CheckRun, wantFan bool, light bool) []histB {
 	if wantFan {
 		out = append(out, fFan(c, kindAlphaB, 2, 3, true)...)
 		out = append(out, fFan(c, kindAlphaS, 1, 1, false)...)
+		out = append(out, fFanStem(c, kindAlphaB, true)...)
 	}
 	return out
 }
@@ -238,7 +243,7 @@ func numKeySpec(b *histB) int {
 }
 
 func probeSpec(b *histB) int {
-	if len(b.probes) > 0 && b.probes[0]&(1<<30) == 0 {
+	if len(b.probes) > 0 {
 		return b.probes[0]
 	}
 	return numKeySpec(b)
@@ -324,7 +329,7 @@ func alphaOnly(bs []histB) []histB {
 }
 
 func prefixScenarios(c *CheckRun) []*Scenario {
-	base := alphaOnly(histFamilies(c, true))
+	base := alphaOnly(cheapBig(histFamiliesW(c, true, true)))
 	out := withMask(base, ckPrefix, func(b *histB) []int { return []int{probeSpec(b)} })
 	mp := c.Eng.constInt("maxPrefixLen", 10)
 	// targeted: two sibling groups under a long stem whose continuations look alike (DESIGN §7 row 5)
@@ -423,6 +428,22 @@ func pureScenarios(c *CheckRun) []*Scenario {
 			}
 			out = append(out, s)
 		}
+	}
+	// targeted: no-op Delete / Search / present-key Insert with a key that differs from a stored one only in
+	// the part of a long compressed path that is not kept inline
+	mp := c.Eng.constInt("maxPrefixLen", 10)
+	for _, p := range []int{mp + 1, mp + 3} {
+		base := [][2]int{{opInsert, aSpec(p, 1)}, {opInsert, aSpec(p, 1)}}
+		for _, pos := range []int{mp, p - 1, 0, mp - 1} {
+			for _, w := range []int{6, 0} {
+				s := histB{kind: kindAlphaB, mask: ckPure, ops: base, extra: []int{w, aSpecMut(p, 1, pos), 0}, label: fmt.Sprintf("long path p=%d, key differing at %d", p, pos)}.scn()
+				s.MayBeVacuous = true
+				out = append(out, s)
+			}
+		}
+		s := histB{kind: kindAlphaB, mask: ckPure, ops: base, extra: []int{7, aSpec(p, 1), 0}, label: fmt.Sprintf("long path p=%d, overwrite", p)}.scn()
+		s.MayBeVacuous = true
+		out = append(out, s)
 	}
 	return out
 }
